@@ -12,13 +12,17 @@
    Event kinds (t = virtual time in us, rounded):
      user thread  prim k | ret k r [pos] | exit | done | param | sleep d us wt | wake | spstart |
                   vel vx vy vz yaw (at the queue put) | term | join | stop | notify | hl c [x y z dur]
-     setpoint thr hover vx vy yaw z | spdone
+     setpoint thr take vx vy vz yaw (a velocity command leaves the queue) |
+                  hover vx vy yaw z lat (ms the link keeps the sender) | hovd (that send returned; lat > 0 only) |
+                  spdone (run() returned) | spdead (run() ended with an exception)
      scheduler    tick                                                                              *)
 EXTENDS Integers, Sequences, FiniteSets, TLC, Json, IOUtils
 
 Traces == JsonDeserialize(IOEnv.TRACE_FILE)
 
-CONSTANTS Helper, DH, DV, DL
+CONSTANTS Helper, DH, DV, DL, X0, Y0, Z0
+Lats == Nat
+MaxLat == 1000000
 Mode == "with"
 Prims == {}
 MaxLen == 100000
@@ -26,17 +30,17 @@ Period == 200
 Bug == "none"
 
 VARIABLES tid, l,
-          mcalls, mvels, mlastT, mcur, mk, mst, mgotos, bad, badAt,     \* monitor
+          mcalls, mvels, mlastT, mcur, mk, mst, mgotos, mbase, mtvels, bad, badAt,     \* monitor
           conf, confAt,
-          now, cst, wake, todo, flying, outcome, prog, cur, hread, q, sp, deadline, hs, zbase, zvel, zt0,
+          now, cst, wake, todo, flying, outcome, prog, cur, hread, q, sp, deadline, hs, zbase, zvel, zt0, nlat, tvels,
           pos, est, calls, vels, lastT, viol
 
 D == INSTANCE Flight
 P == INSTANCE FlightProps
 
-specvars == <<now, cst, wake, todo, flying, outcome, prog, cur, hread, q, sp, deadline, hs, zbase, zvel, zt0,
+specvars == <<now, cst, wake, todo, flying, outcome, prog, cur, hread, q, sp, deadline, hs, zbase, zvel, zt0, nlat, tvels,
               pos, est, calls, vels, lastT, viol>>
-monvars == <<mcalls, mvels, mlastT, mcur, mk, mst, mgotos>>
+monvars == <<mcalls, mvels, mlastT, mcur, mk, mst, mgotos, mbase, mtvels>>
 T == Traces[tid]
 Ev == T.ev[l]
 MsOf(us) == (us + 500) \div 1000
@@ -45,8 +49,8 @@ PeriodUs == 200000
 SlackUs == 1000         \* "one scheduling quantum" (DESIGN 3.1(9)); steps take no virtual time, stamps are rounded
 
 Init == /\ tid \in 1..Len(Traces) /\ l = 1
-        /\ mcalls = <<>> /\ mvels = <<>> /\ mlastT = 0 /\ mcur = NoMCur /\ mk = 0 /\ mgotos = 0
-        /\ mst = [x |-> 0, y |-> 0, z |-> 0, dv |-> Traces[tid].dv, dh |-> Traces[tid].dh, dl |-> Traces[tid].dl]
+        /\ mcalls = <<>> /\ mvels = <<>> /\ mlastT = 0 /\ mcur = NoMCur /\ mk = 0 /\ mgotos = 0 /\ mbase = 0 /\ mtvels = <<>>
+        /\ mst = [x |-> Traces[tid].x0, y |-> Traces[tid].y0, z |-> Traces[tid].z0, dv |-> Traces[tid].dv, dh |-> Traces[tid].dh, dl |-> Traces[tid].dl]
         /\ bad = "ok" /\ badAt = 0 /\ conf = TRUE /\ confAt = 0
         /\ D!Init
 
@@ -56,6 +60,8 @@ Conform(A) == IF conf /\ ENABLED A
                    /\ UNCHANGED specvars
 Skip == UNCHANGED <<conf, confAt, specvars>>
 Fail(c) == IF bad = "ok" /\ c # "ok" THEN bad' = c /\ badAt' = l ELSE UNCHANGED <<bad, badAt>>
+\* the calls of the flight in progress (a take-off primitive after a landing starts a new flight: mbase)
+FlightCalls == SubSeq(mcalls, mbase + 1, Len(mcalls))
 AtMs == now = MsOf(Ev.t)
 
 VelOf(e) == [t |-> e.t, vx |-> e.vx, vy |-> e.vy, vz |-> e.vz, yaw |-> e.yaw]
@@ -66,7 +72,7 @@ SameVel(v, e) == LET o == D!VelObs(v, 0) IN
 EPrim == /\ Ev.e = "prim"
          /\ mk' = Ev.k /\ mgotos' = 0
          /\ mcur' = IF T.helper = "MC" /\ P!Blocking(T.prog[Ev.k]) THEN [NoMCur EXCEPT !.p = T.prog[Ev.k]] ELSE NoMCur
-         /\ UNCHANGED <<mcalls, mvels, mlastT, mst, bad, badAt>>
+         /\ UNCHANGED <<mcalls, mvels, mlastT, mst, mbase, mtvels, bad, badAt>>
          /\ Conform(AtMs /\ D!Choose(T.prog[Ev.k]))
 
 \* primitive k returned (r = "ok") or raised (r = "exc"); k = 0 is take_off.  PHC: pos = get_position()
@@ -81,9 +87,11 @@ ERet == /\ Ev.e = "ret"
                 IN /\ mst' = s1
                    /\ Fail(IF Ev.r = "ok" /\ Ev.k # 0 /\ ~P!GoToCount(p, mst, mgotos) THEN "GoToCount"
                            ELSE IF Ev.r # "ok" /\ mgotos # 0 THEN "GoToCount"
+                           \* "calling land always ends with the stop command sent"
+                           ELSE IF Ev.r = "ok" /\ p.op = "land" /\ (mcalls = <<>> \/ mcalls[Len(mcalls)] # "stop") THEN "EndsWithStop"
                            ELSE IF ~P!PosOK(Ev.pos, s1) THEN "Position" ELSE "ok")
         /\ mcur' = NoMCur
-        /\ UNCHANGED <<mcalls, mvels, mlastT, mk, mgotos>>
+        /\ UNCHANGED <<mcalls, mvels, mlastT, mk, mgotos, mbase, mtvels>>
         /\ Skip
 
 EVel == /\ Ev.e = "vel"
@@ -96,19 +104,19 @@ EVel == /\ Ev.e = "vel"
                    /\ mcur' = [mcur EXCEPT !.ph = 3]
               ELSE IF P!Blocking(mcur.p) THEN Fail("PrimSequence") /\ UNCHANGED mcur
               ELSE UNCHANGED <<mcur, bad, badAt>>
-        /\ UNCHANGED <<mcalls, mlastT, mk, mst, mgotos>>
+        /\ UNCHANGED <<mcalls, mlastT, mk, mst, mgotos, mbase, mtvels>>
         /\ Conform(AtMs /\ D!CmdPut /\ SameVel(Head(todo).v, Ev))
 
 ESleep == /\ Ev.e = "sleep"
           /\ IF P!Blocking(mcur.p) /\ mcur.ph = 1
              THEN mcur' = [mcur EXCEPT !.dur = Ev.d, !.durUs = Ev.us, !.ph = 2]
              ELSE UNCHANGED mcur
-          /\ UNCHANGED <<mcalls, mvels, mlastT, mk, mst, mgotos, bad, badAt>>
+          /\ UNCHANGED <<mcalls, mvels, mlastT, mk, mst, mgotos, mbase, mtvels, bad, badAt>>
           /\ Conform(AtMs /\ D!CmdSleep(MsOf(Ev.wt) - now))
 
 ESimple == /\ Ev.e \in {"param", "wake", "spstart", "term", "join", "exit", "done"}
            /\ mlastT' = IF Ev.e = "spstart" THEN Ev.t ELSE mlastT
-           /\ UNCHANGED <<mcalls, mvels, mcur, mk, mst, mgotos, bad, badAt>>
+           /\ UNCHANGED <<mcalls, mvels, mcur, mk, mst, mgotos, mbase, mtvels, bad, badAt>>
            /\ CASE Ev.e = "param" -> Conform(AtMs /\ D!CmdParam)
                 [] Ev.e = "wake" -> Conform(AtMs /\ D!CmdWake)
                 [] Ev.e = "spstart" -> Conform(AtMs /\ D!CmdSpStart)
@@ -120,9 +128,14 @@ ESimple == /\ Ev.e \in {"param", "wake", "spstart", "term", "join", "exit", "don
 
 \* commander / high-level commander calls of the user thread
 ECall == /\ Ev.e \in {"stop", "notify", "hl"}
-         /\ LET c == IF Ev.e = "hl" THEN Ev.c ELSE Ev.e IN
+         /\ LET c == IF Ev.e = "hl" THEN Ev.c ELSE Ev.e
+                \* the take-off command of a "takeoff" primitive right after a landing: the next flight begins
+                newfl == /\ T.helper = "PHC" /\ c = "takeoff" /\ mk > 0 /\ T.prog[mk].op = "takeoff"
+                         /\ mcalls # <<>> /\ mcalls[Len(mcalls)] = "stop"
+            IN
             /\ mcalls' = Append(mcalls, c)
-            /\ Fail(IF ~P!AfterStopOK(T.helper, mcalls, c) THEN "StreamAfterStop"
+            /\ mbase' = IF newfl THEN Len(mcalls) ELSE mbase
+            /\ Fail(IF ~newfl /\ ~P!AfterStopOK(T.helper, FlightCalls, c) THEN "StreamAfterStop"
                     ELSE IF T.helper = "MC" /\ c = "stop" /\ ~P!HoverGap(Ev.t, mlastT, PeriodUs, SlackUs) THEN "HoverGap"
                     ELSE IF c = "goto" /\ mk = 0 THEN "GoToSpurious"
                     ELSE IF c = "goto" THEN P!GoToClause([x |-> Ev.x, y |-> Ev.y, z |-> Ev.z, dur |-> Ev.dur], T.prog[mk], mst)
@@ -132,21 +145,35 @@ ECall == /\ Ev.e \in {"stop", "notify", "hl"}
                THEN Conform(AtMs /\ D!CmdGoTo /\ P!QEq(Ev.x, P!Milli(Head(todo).v.vx)) /\ P!QEq(Ev.y, P!Milli(Head(todo).v.vy))
                             /\ P!QEq(Ev.z, P!Milli(Head(todo).v.vz)) /\ P!QEq(Ev.dur, P!Milli(Head(todo).n)))
                ELSE Conform(AtMs /\ D!CmdCall /\ calls' = Append(calls, c))
-         /\ UNCHANGED <<mvels, mlastT, mcur, mk, mst>>
+         /\ UNCHANGED <<mvels, mlastT, mcur, mk, mst, mtvels>>
 
 \* ------------------------------------------------------------------ setpoint thread, scheduler
 EHover == /\ Ev.e = "hover"
           /\ LET h == [t |-> Ev.t, vx |-> Ev.vx, vy |-> Ev.vy, yaw |-> Ev.yaw, z |-> Ev.z] IN
-             /\ Fail(IF ~P!AfterStopOK(T.helper, mcalls, "hover") THEN "StreamAfterStop"
-                     ELSE P!HoverClause(h, mvels, mlastT, PeriodUs, SlackUs))
-             /\ Conform(AtMs /\ (D!SpGet \/ D!SpTimeout) /\ sp' = "waiting"
+             /\ Fail(IF ~P!AfterStopOK(T.helper, FlightCalls, "hover") THEN "StreamAfterStop"
+                     ELSE P!HoverClause(h, mtvels, mlastT, PeriodUs, SlackUs))
+             /\ Conform(AtMs /\ (D!SpGet(Ev.lat) \/ D!SpTimeout(Ev.lat)) /\ sp' \in {"waiting", "sending"}
                         /\ hs'.z = Ev.z /\ LET o == D!HovObs(hs', 0) IN
                              P!QEq(o.vx, Ev.vx) /\ P!QEq(o.vy, Ev.vy) /\ P!QEq(o.yaw, Ev.yaw))
           /\ mcalls' = Append(mcalls, "hover") /\ mlastT' = Ev.t
-          /\ UNCHANGED <<mvels, mcur, mk, mst, mgotos>>
-ESpDone == /\ Ev.e = "spdone"
+          /\ UNCHANGED <<mvels, mcur, mk, mst, mgotos, mbase, mtvels>>
+\* the setpoint thread takes a velocity command from its queue: in force from now on (without link latency this is
+\* the instant it was issued).  Commands leave the queue in the order they were issued, none invented.
+ETake == /\ Ev.e = "take"
+         /\ LET k == Len(mtvels) + 1 c == VelOf(Ev) IN
+            /\ mtvels' = Append(mtvels, c)
+            /\ Fail(IF k > Len(mvels) \/ [c EXCEPT !.t = 0] # [mvels[k] EXCEPT !.t = 0] \/ Ev.t < mvels[k].t
+                    THEN "HoverVelocity" ELSE "ok")
+         /\ UNCHANGED <<mcalls, mvels, mlastT, mcur, mk, mst, mgotos, mbase>>
+         /\ Skip
+\* the link hands the sender back: the period is counted from here
+EHovDone == /\ Ev.e = "hovd"
+            /\ mlastT' = Ev.t
+            /\ UNCHANGED <<mcalls, mvels, mcur, mk, mst, mgotos, mbase, mtvels, bad, badAt>>
+            /\ Conform(AtMs /\ D!SpSent)
+ESpDone == /\ Ev.e \in {"spdone", "spdead"}
            /\ UNCHANGED <<monvars, bad, badAt>>
-           /\ Conform(AtMs /\ D!SpGet /\ sp' = "done")
+           /\ Conform(Ev.e = "spdone" /\ AtMs /\ D!SpGet(0) /\ sp' = "done")
 ETick == /\ Ev.e = "tick"
          /\ UNCHANGED <<monvars, bad, badAt>>
          \* an advance of less than the spec's granularity (two deadlines within the same ms) is no step
@@ -154,7 +181,7 @@ ETick == /\ Ev.e = "tick"
 
 Step == /\ l <= Len(T.ev)
         /\ l' = l + 1 /\ UNCHANGED tid
-        /\ (EPrim \/ ERet \/ EVel \/ ESleep \/ ESimple \/ ECall \/ EHover \/ ESpDone \/ ETick)
+        /\ (EPrim \/ ERet \/ EVel \/ ESleep \/ ESimple \/ ECall \/ ETake \/ EHover \/ EHovDone \/ ESpDone \/ ETick)
 
 \* end of trace: how the user's with-block / land() ended, and the last commander calls
 Finish == /\ l = Len(T.ev) + 1
